@@ -65,6 +65,12 @@ func processCalcJcc(env *Pass1, operands []ast.Exp, instName string) {
 			estimatedSize = estimateJumpSize(instName, env.BitMode)
 		}
 		ocode = fmt.Sprintf("%s %d", instName, targetAddr) // 数値文字列を直接設定
+		if env.RelaxBranches {
+			// 緩和法: 形式を決めて codegen に伝える (サイズの見積もりと出力を一致させる)
+			form, size := env.noteBranch(instName, "", targetAddr)
+			estimatedSize = size
+			ocode = fmt.Sprintf("%s %d,%s", instName, targetAddr, BranchFormName(form))
+		}
 
 	case *ast.SegmentExp: // FAR ジャンプ (seg:off)
 		log.Printf("[pass1] Processing evaluated SegmentExp for %s: %s", instName, op.TokenLiteral())
@@ -113,6 +119,11 @@ func processCalcJcc(env *Pass1, operands []ast.Exp, instName string) {
 			//  未定義ラベルへのジャンプや後続の DW/DD 参照が黙ってアドレス 0 になるため、登録しない)
 			estimatedSize = estimateJumpSize(instName, env.BitMode)
 			ocode = fmt.Sprintf("%s {{.%s}}", instName, label) // ラベルプレースホルダー
+			if env.RelaxBranches {
+				form, size := env.noteBranch(instName, label, 0)
+				estimatedSize = size
+				ocode = fmt.Sprintf("%s {{.%s}},%s", instName, label, BranchFormName(form))
+			}
 		} else {
 			// ケース 3b: ラベルでない ImmExp (例: '$' が NumberExp に評価された場合や予期しない Factor)
 			// デフォルトの処理にフォールスルーします (ocode は default で設定)
